@@ -226,6 +226,9 @@ func (c *Case) realRequest(ctx context.Context, base, id string, body io.Reader)
 	if c.CE != "" {
 		req.Header.Set("Content-Encoding", c.CE)
 	}
+	if c.Shape == "upbidi" {
+		req.Header.Set("Accept", "application/json")
+	}
 	if c.T == "grpc" {
 		req.Header.Set("Te", "trailers")
 		if c.Codec == "gzip" {
